@@ -99,6 +99,45 @@ def n0_show(n):
     return vg.show(n, 2)
 
 
+def _neg_inf(x) -> bool:
+    t = vg.show(x, 3) if isinstance(x, vg.S) else str(x)
+    return "inf" in t and (t.strip().startswith("-") or "-inf" in t or "-math.inf" in t or "neg" in t)
+
+
+def own_distribution_decoders(ctx: Ctx):
+    """C10.e decoders that build their step distribution themselves (MDAM) follow the same stage order as process_logits:
+    squash (tanh clipping) FIRST, then write -inf on the masked entries, then normalise.  A squashing function applied on top of
+    the -inf fill maps it to a finite value (-tanh_clipping): every masked action keeps positive probability."""
+    cls = ctx.repo.get_class("rl4co/models/zoo/mdam/decoder.py", "MDAMDecoder")
+    fi = cls.methods.get("_one_to_many_logits")
+    if fi is None:
+        raise AnalysisError("MDAMDecoder._one_to_many_logits not found")
+    ctx.fn(fi)
+    it = vg.Interp(ctx.repo, cls, inline_policy=lambda f, a: False)
+    fr = it.run_function(fi)
+    ret = fr.ret
+    items = ret.items if isinstance(ret, vg.Tup) else (list(ret.args) if isinstance(ret, vg.S) and ret.op == "tuple" else [])
+    if not items or not isinstance(items[0], vg.S):
+        raise AnalysisError("MDAMDecoder._one_to_many_logits: does not return (logits, glimpse)")
+    logits = items[0]
+    SQUASH = {"tanh", "sigmoid", "clamp", "clip", "hardtanh"}
+
+    def is_squash(n):
+        return (n.op == "meth" and n.args[1] in SQUASH) or (nf._fn(n) or "").split(".")[-1] in SQUASH
+
+    fills = [n for n in vg.walk(logits) if n.op == "store" and _neg_inf(n.args[2]) and "mask" in vg.params_of(n.args[1])]
+    def is_norm(x):
+        return (x.op == "meth" and x.args[1] in ("softmax", "log_softmax")) or (nf._fn(x) or "").split(".")[-1] in ("softmax", "log_softmax")
+    # a fill that went through a softmax is a zero weight (the inner glimpse attention), not a logit any more
+    squashed_after = [n for n in vg.walk(logits) if is_squash(n) and any(x.op == "store" and _neg_inf(x.args[2]) and "mask" in vg.params_of(x.args[1]) for x in vg.walk(n, stop=is_norm))]
+    squashes = [n for n in vg.walk(logits) if is_squash(n)]
+    ok = bool(fills) and bool(squashes) and not squashed_after
+    ctx.ob("C10.e", "MDAMDecoder._one_to_many_logits:mask-after-clipping", ok, fi.loc,
+           f"-inf fill of the masked entries present: {bool(fills)}; tanh clipping present: {bool(squashes)}; a squashing function applied on top of the fill: {bool(squashed_after)}" +
+           ("" if ok else " -- the fill becomes the finite value -tanh_clipping and masked actions keep positive probability"),
+           construct="MDAMDecoder._one_to_many_logits:stage-order")
+
+
 def run(ctx: Ctx):
     fi = ctx.repo.get_function(DEC, "process_logits")
     ctx.fn(fi)
@@ -346,6 +385,62 @@ def forwarding(ctx: Ctx):
         m = pl[0].args[2]
         okm = m.op in ("phi", "ifexp") and "mask_logits" in vg.selfattrs_of(m.args[0]) and any(a.op == "param" and a.args[0] == "mask" for a in m.args[1:]) and any(vg.is_const(a) and a.args[0] is None for a in m.args[1:])
     ctx.ob("C10.d", "DecodingStrategy.step:mask-passed", okm, fi.loc, "mask is replaced by None only under `not self.mask_logits`", construct="DecodingStrategy.step:mask")
+    own_distribution_decoders(ctx)
+    dispatch_rules(ctx)
+
+
+def dispatch_rules(ctx: Ctx):
+    """C10.f two dispatch functions stand between the caller's settings and the distribution.
+    (1) `get_decoding_strategy(name, **config)` hands the caller's filter settings to the strategy unchanged: it may set the
+        `multistart` / `select_best` switches it derives from the name, but never writes temperature, tanh_clipping, mask_logits,
+        top_k or top_p (a `greedy` rollout records the log-probabilities of the filtered distribution, too).
+    (2) `decode_logprobs(logprobs, mask, decode_type)` returns what DecodingStrategy.greedy / .sampling select, on every path:
+        an early return computed from the mask alone hands rows with several feasible actions their lowest-index one."""
+    PROTECTED = {"temperature", "tanh_clipping", "mask_logits", "top_k", "top_p"}
+    fi = ctx.repo.get_function(DEC, "get_decoding_strategy")
+    ctx.fn(fi)
+    kwname = fi.node.args.kwarg.arg if fi.node.args.kwarg else None
+    if kwname is None:
+        raise AnalysisError("get_decoding_strategy: no **config parameter")
+    writes = []
+    for n in ast.walk(fi.node):
+        tgts = []
+        if isinstance(n, ast.Assign):
+            tgts = n.targets
+        elif isinstance(n, ast.AugAssign):
+            tgts = [n.target]
+        for t in tgts:
+            for e in (t.elts if isinstance(t, ast.Tuple) else [t]):
+                if isinstance(e, ast.Subscript) and isinstance(e.value, ast.Name) and e.value.id == kwname and isinstance(e.slice, ast.Constant):
+                    writes.append(e.slice.value)
+        if isinstance(n, ast.Call) and isinstance(n.func, ast.Attribute) and isinstance(n.func.value, ast.Name) and n.func.value.id == kwname and n.func.attr in ("update", "pop", "setdefault"):
+            for a in n.args:
+                if isinstance(a, ast.Constant):
+                    writes.append(a.value)
+                if isinstance(a, ast.Dict):
+                    writes += [k.value for k in a.keys if isinstance(k, ast.Constant)]
+            writes += [k.arg for k in n.keywords if k.arg]
+    bad = sorted(set(writes) & PROTECTED)
+    ctx.ob("C10.f", "get_decoding_strategy:settings-forwarded-unchanged", not bad, fi.loc,
+           f"keys of **{kwname} written by the dispatcher: {sorted(set(writes))}" + ("" if not bad else f" -- {bad} are the caller's distribution settings"),
+           construct="get_decoding_strategy:config-overwritten")
+    fd = ctx.repo.get_function(DEC, "decode_logprobs")
+    ctx.fn(fd)
+    from ..model import returned_exprs
+    rets = list(returned_exprs(fd.node))
+    via = [r for r in rets if isinstance(r, ast.Name) or (isinstance(r, ast.Call) and ast.unparse(r.func).split(".")[-1] in ("greedy", "sampling"))]
+    names = {r.id for r in rets if isinstance(r, ast.Name)}
+    defs_ok = True
+    for nm in names:
+        for st in ast.walk(fd.node):
+            if isinstance(st, ast.Assign) and any(isinstance(t, ast.Name) and t.id == nm for t in st.targets):
+                if not (isinstance(st.value, ast.Call) and ast.unparse(st.value.func).split(".")[-1] in ("greedy", "sampling")):
+                    defs_ok = False
+    okd = bool(rets) and len(via) == len(rets) and defs_ok
+    ctx.ob("C10.f", "decode_logprobs:every-return-is-a-selection", okd, fd.loc,
+           f"{len(rets)} return(s), all of them the result of DecodingStrategy.greedy / .sampling: {okd}" +
+           ("" if okd else " -- a return computed some other way bypasses the selection (and its feasibility assertion)"),
+           construct="decode_logprobs:return-paths")
 
 
 def _all_syms(it):
